@@ -121,7 +121,7 @@ CursorReset(s)   == s.cur = 0
 
 Bases == ndJsonDeserialize(IOEnv.IDENT_BASES)
 P     == ndJsonDeserialize(IOEnv.IDENT_PARAMS)[1]
-   \* [target, bigtarget, biglen, phase, alllen, nflip, flipk, nrand, minfaults, maxfaults, sel (sequence of base ids)]
+   \* [target, bigtarget, biglen, phase, alllen, nflip, flipk, nrand, maxfaults (1 | 2), sel (sequence of base ids)]
    \* target = number of field faults wanted per base (0 = all of them): the fault space of a base with more
    \* is strided, the phase of the stride comes from the seed; bases of at most alllen bytes are never strided
 
@@ -176,31 +176,36 @@ FaultOps(b) == IF b = 0 THEN RandOps ELSE SetOps(b) \cup TruncOps(b) \cup FlipOp
 
 TruthOf(b, o) == IF b > 0 /\ o = <<>> THEN Bases[b].truth ELSE "any"
 
-Emit == (Mode = "gen" /\ Len(ops) >= P.minfaults /\ ~(base = 0 /\ ops = <<>>))
-        => PrintT(ToJson([b |-> base, ops |-> ops, truth |-> truth]))
+Emit == (Mode = "gen") => PrintT(ToJson([b |-> base, ops |-> ops, truth |-> truth]))
 
 -----------------------------------------------------------------------------
 (* The state machine                                                        *)
 
 MaxFaultsMC == 1
 
+(* gen: the fault sequences of a base. They are drawn in Init - all of them as initial states - because TLC does  *)
+(* not memoise FaultOps(b) between states: drawn by successive Corrupt steps the set would be rebuilt per state.   *)
+FaultSeqs(b) ==
+  LET F == FaultOps(b) IN
+  IF P.maxfaults = 1
+  THEN (IF b > 0 THEN {<<>>} ELSE {}) \cup { <<x>> : x \in F }
+  ELSE { <<x, y>> : x \in F, y \in F }
+
 Init == /\ st = S0
-        /\ ops = <<>>
         /\ IF Mode = "gen"
            THEN /\ base \in {P.sel[i] : i \in 1..Len(P.sel)}
-                /\ truth = TruthOf(base, <<>>)
+                /\ ops \in FaultSeqs(base)
+                /\ truth = TruthOf(base, ops)
            ELSE /\ base = 0
+                /\ ops = <<>>
                 /\ truth \in Formats \cup {"none"}
 
-(* damage the input: whatever it was, nothing is known about it afterwards  *)
+(* mc: damage the input: whatever it was, nothing is known about it afterwards *)
 Corrupt ==
+  /\ Mode = "mc"
   /\ st = S0
-  /\ IF Mode = "gen"
-     THEN /\ Len(ops) < P.maxfaults
-          /\ \/ Len(ops) = 0 /\ \E op \in FaultOps(base) : ops' = Append(ops, op)
-             \/ Len(ops) > 0 /\ base > 0 /\ \E op \in FaultOps(base) : ops' = Append(ops, op)
-     ELSE /\ Len(ops) < MaxFaultsMC
-          /\ ops' = Append(ops, "fault")
+  /\ Len(ops) < MaxFaultsMC
+  /\ ops' = Append(ops, "fault")
   /\ truth' = "any"
   /\ UNCHANGED <<base, st>>
 
